@@ -60,6 +60,15 @@ def py_inv(gs):
     C = O.closure([O.enc(s) for s in gs])
     return O.show_inv(len(C), O.inv_of_closure(C))
 
+def py_invname(text):
+    """invariants of a canonical algebra text `[2*so(3),u(1)]` by the Python oracle (same format as the Lean `invname`)"""
+    try:
+        summ = O.parse_algebra(text)
+        size = sum(k * O.dim_name(ty, m) for ty, m, k in summ)
+        return O.show_inv(size, O.inv_of_name(summ))
+    except Exception:
+        return "bad-op"
+
 def tag_classify(l, o):
     f = fields(o)
     return "alg:" + f.get("alg", o)[:40]
@@ -83,3 +92,109 @@ def shrink_classify(line):
         for q in range(len(allstr[0])):
             nf = [[g[:q] + g[q + 1:] for g in gs] for gs in fieldsL]
             yield " ".join([t[0]] + [",".join(x) if x else "-" for x in nf])
+
+# ---------------------------------------------------------------- the classifier properties on EDITED collections
+# (a collection that was queried, edited through the public API and queried again must satisfy C01/C02/C08/C09 as well:
+#  a stale cached classification / component list violates them although every freshly built collection is fine)
+import impl_collection as IC
+
+HQ = {"C01": ["q.alg"], "C09": ["q.dim", "q.alg", "q.dim"], "C02": ["q.verts", "q.deps", "q.morphs"],
+      "C08": ["q.isin", "q.seldep", "q.space"]}
+
+def history_lines(pid, rng, tier):
+    import props.c10 as C10
+    th = tier == "thorough"
+    out = []
+    for _ in range(900 if th else 220):
+        maxn = rng.choice([2, 3, 3, 4])
+        l = C10.history(rng, maxn, 6, rng.randint(3, 12), space_ok=False)
+        init, ops = IC.ops_of(l)
+        cur = O.pad(list(init))
+        new = []
+        stack = []
+        for t in ops:
+            if t[0].startswith("q."):
+                q = rng.choice(HQ[pid])
+                if q in ("q.isin", "q.seldep"):
+                    L = len(cur[0]) if cur else maxn
+                    C = sorted(O.closure_strs(cur)) if cur and len(set(map(len, cur))) == 1 else []
+                    xs = [rng.choice(C) if (C and rng.random() < 0.6) else G.rs(rng, L) for _ in range(rng.randint(1, 3))]
+                    new.append(q + ":" + ",".join(xs))
+                elif q == "q.space" and cur and len(cur[0]) > 3:
+                    new.append("q.verts" if pid == "C02" else "q.isin:" + G.rs(rng, len(cur[0])))
+                else:
+                    new.append(q)
+            else:
+                new.append(":".join(t))
+                if t[0] in ("copy", "ccopy"):
+                    stack.insert(0, list(cur))
+                if t[0] == "swap":
+                    if stack:
+                        cur, stack[0] = stack[0], cur
+                else:
+                    cur = C10.spec_edit(cur, t)
+        new.append(HQ[pid][0] if HQ[pid][0] not in ("q.isin",) else "q.space" if (cur and len(cur[0]) <= 3) else "q.isin:" + G.rs(rng, len(cur[0]) if cur else 2))
+        out.append(G.line_of("hist", init, ";".join(new)))
+    return out
+
+def history_oracle(pid):
+    def oracle(line, out):
+        init, ops = IC.ops_of(line)
+        state = O.pad(list(init))
+        if out.startswith("!"):
+            return None
+        last = {}
+        for t, o in zip(ops, out.split("\t")):
+            if not t[0].startswith("q."):
+                state = impl_graph.strs(o.split("=", 1)[1])
+                last = {}
+                continue
+            if not state or len(set(map(len, state))) != 1 or o.startswith("!"):
+                if o.startswith("!") and state:
+                    return f"query {':'.join(t)} on the edited collection {state} raised {o}"
+                continue
+            C = O.closure_strs(state)
+            where = f"on the edited collection {state} (history {line.split(' ')[2][:120]})"
+            if t[0] == "q.dim" and pid == "C09":
+                if int(o) != len(C):
+                    return f"get_dla_dim() = {o} {where}, but the commutator closure has {len(C)} strings"
+                last["dim"] = int(o)
+            elif t[0] == "q.alg" and pid in ("C01", "C09"):
+                nm = py_invname(o)
+                if nm == "bad-op":
+                    return f"get_algebra() = {o} {where} is not a name of the family"
+                if pid == "C09":
+                    if "dim" in last and int(fields(nm)["size"]) != last["dim"]:
+                        return f"get_dla_dim() = {last['dim']} but the algebra it names, {o}, has dimension {fields(nm)['size']} {where}"
+                else:
+                    c = py_inv(state)
+                    if c != nm:
+                        return f"reported {o} has invariants [{nm}] but the commutator closure has [{c}] {where}"
+            elif pid == "C02" and t[0] in ("q.verts", "q.deps"):
+                xs = lst(o)
+                if t[0] == "q.verts" and O.closure_strs(xs) != C:
+                    return f"canonical vertices {xs} generate {len(O.closure_strs(xs))} strings, the generators {len(C)} {where}"
+                if t[0] == "q.deps" and any(x not in C for x in xs):
+                    return f"dependent {[x for x in xs if x not in C][0]} is not in the commutator closure {where}"
+            elif pid == "C08":
+                if t[0] == "q.isin":
+                    qs = O.pad(impl_graph.strs(t[1]))
+                    if len(qs[0]) == len(state[0]) and (o == "T") != all(q in C for q in qs):
+                        return f"is_in({t[1]}) = {o} {where}, closure membership says {all(q in C for q in qs)}"
+                elif t[0] == "q.seldep":
+                    qs = O.pad(impl_graph.strs(t[1]))
+                    if len(qs[0]) == len(state[0]) and o != "None":
+                        exp = sorted(q for q in dict.fromkeys(qs) if q in C)
+                        if sorted(lst(o)) != exp:
+                            return f"select_dependents({t[1]}) = {sorted(lst(o))} {where}, members of X in the closure = {exp}"
+                elif t[0] == "q.space" and o != "None":
+                    if set(lst(o)) != C:
+                        return f"get_space() has {len(lst(o))} strings {where}, the closure {len(C)}"
+        return None
+    return oracle
+
+def history_stream(pid, rng, tier):
+    import props.c10 as C10
+    return Stream("queried-edited-queried", history_lines(pid, rng, tier), IC.handle, oracle=history_oracle(pid), shrink=C10.shrink,
+                  tag=lambda l, o: "hist" + (":err" if "!" in o else ""),
+                  nontrivial=lambda l, o: any(x.split(":")[0] in ("rep", "con", "rem", "del", "exp", "sort", "ins") for x in l.split(" ")[2].split(";")))
